@@ -11,6 +11,7 @@ import (
 	"time"
 
 	"github.com/mdzio/go-mqtt/message"
+	"github.com/mdzio/go-mqtt/service"
 )
 
 // ---------------------------------------------------------------- C17 / C08 (B): recorded concurrent runs
@@ -328,6 +329,86 @@ func cmdFanIn(a Args) {
 				time.Sleep(100 * time.Microsecond)
 			}
 		}()
+		// a client with a persistent session that comes and goes while messages for its stored subscription are being
+		// published: the stream of every one of its connections starts with the CONNACK, whole, and goes on in whole packets
+		// (its packets are not part of the enq/recv accounting: a malformed stream is logged as a `bad` event)
+		if !retOnly {
+			floodStop := make(chan struct{})
+			var floodWg sync.WaitGroup
+			floodWg.Add(1)
+			go func() {
+				defer floodWg.Done()
+				pl := make([]byte, 2000)
+				for {
+					select {
+					case <-floodStop:
+						return
+					default:
+					}
+					m := message.NewPublishMessage()
+					m.SetTopic([]byte("z/flood"))
+					m.SetPayload(pl)
+					m.SetQoS(0)
+					r.svr.Publish(m)
+				}
+			}()
+			wg.Add(1)
+			go func() {
+				defer wg.Done()
+				defer func() { close(floodStop); floodWg.Wait() }()
+				for k := 0; k < 12; k++ {
+					bev.mu.Lock()
+					n0 := len(bev.admit)
+					bev.mu.Unlock()
+					cl, sv := net.Pipe()
+					if err := service.VerifServe(r.svr, sv); err != nil {
+						return
+					}
+					go cl.Write(connectBytes(bAct{K: "frz", Clean: false, Ka: 600}))
+					first := true
+					for n := 0; n < 6; n++ {
+						p, err := readPkt(cl, 3*time.Second)
+						if err != nil {
+							if first {
+								log.add(map[string]interface{}{"e": "bad", "s": "rz", "why": "no CONNACK: " + err.Error()})
+								abortOnce.Do(func() { close(abort) })
+							}
+							break
+						}
+						ty, ok := strictParse(p)
+						if !ok || (first && ty != 2) || (!first && ty == 2) {
+							log.add(map[string]interface{}{"e": "bad", "s": "rz", "why": fmt.Sprintf("packet %d of a resumed connection: type %d, well-formed %v (the first must be the CONNACK, and only the first)", n, ty, ok)})
+							abortOnce.Do(func() { close(abort) })
+							cl.Close()
+							return
+						}
+						if first && k == 0 {
+							// first connection of the session: subscribe
+							cl.Write(pkt(0x82, append([]byte{0, 1}, append(lp([]byte("z/#")), 0)...)))
+						}
+						first = false
+					}
+					cl.Close()
+					// no take-over in the library: the next connection of the session comes when this one is gone
+					var svc uint64
+					deadline := time.Now().Add(3 * time.Second)
+					for svc == 0 && time.Now().Before(deadline) {
+						bev.mu.Lock()
+						if len(bev.admit) > n0 {
+							svc = bev.admit[len(bev.admit)-1]
+						}
+						bev.mu.Unlock()
+						time.Sleep(100 * time.Microsecond)
+					}
+					if svc != 0 {
+						select {
+						case <-bev.stopCh(svc):
+						case <-time.After(5 * time.Second):
+						}
+					}
+				}
+			}()
+		}
 		donec := make(chan struct{})
 		go func() { wg.Wait(); close(donec) }()
 		aborted := false
